@@ -109,9 +109,19 @@ fn finish<T: Encode>(r: Result<Result<T, prio::codec::CodecError>, String>, t0: 
     let micros = t0.elapsed().as_micros();
     match r {
         Ok(Ok(v)) => {
-            let re = guarded(|| (v.get_encoded().ok(), v.encoded_len()));
+            let re = guarded(|| {
+                // the encoder appends: into a buffer that already holds bytes it must add exactly what it writes into an empty one
+                let whole = v.get_encoded().ok();
+                let mut buf = vec![0xaa, 0xbb, 0xcc];
+                let appended = v.encode(&mut buf).ok().map(|_| buf);
+                (whole, v.encoded_len(), appended)
+            });
             match re {
-                Ok((reenc, el)) => Outcome { ok: true, reenc, enc_len: Some(el), panic: None, alloc, peak, micros },
+                Ok((reenc, el, appended)) => {
+                    let consistent = match (&reenc, &appended) { (Some(w), Some(a)) => a.len() == w.len() + 3 && a[..3] == [0xaa, 0xbb, 0xcc] && a[3..] == w[..], (None, None) => true, _ => false };
+                    let panic = if consistent { None } else { Some("encode() into a non-empty buffer does not append get_encoded()".to_string()) };
+                    Outcome { ok: true, reenc, enc_len: Some(el), panic, alloc, peak, micros }
+                }
                 Err(p) => Outcome { ok: true, reenc: None, enc_len: None, panic: Some(format!("encode: {p}")), alloc, peak, micros },
             }
         }
